@@ -119,6 +119,14 @@ def run(ctx, w):
     # (no stale sub-parameters): the memoryless-reset rules of C03
     c03.run_t7(ctx, w, tables.parser_tables(w))
     c03.capacity(ctx, w, tables.parser_tables(w), rule="G1d")
+    # "the pen is the fold of the SGR parameters RECEIVED": which sequences are SGR at all is the parser's transition and
+    # dispatch tables (a dropped private marker turns `CSI > 4 m` into an SGR), and the parameter values its digit fold
+    tb_ = tables.parser_tables(w)
+    c03.run_transition(ctx, w, tb_)
+    ctx.floor("T1", 14 * 20, "transition cells")
+    c03.dispatch_rules(ctx, w, tb_)
+    # blanks made by the row primitives (ICH / DCH / ECH / EL) carry the pen handed to them, in every branch
+    prims.row_primitives(ctx, w, S, "G12")
 
 
 def decode_rules(ctx, w):
